@@ -42,12 +42,12 @@ CLAIMED = {
         design='5/C04'),
     'C05': dict(
         text='Theorems over ALL lists of lines A, all B, all fuels and every token configuration without a BlankLine token, about the dispatch loop and readers of '
-             'the parser model: (1) if A\'s LAST block is closed (the property\'s hypothesis), no top-level block of A is a link-definition block and every top-level list of A is ended by a line of A (computable; any start state), the blocks of A + blank line + B are the blocks of A followed by those of B read from the state A leaves - the flags for code / fence / HTML blocks are derived from the closed last block (a line of white space starts no block: a `needs a non-space character` analysis of the regex engine); '
+             'the parser model: (1) THE PROPERTY\'S OWN HYPOTHESES AND NOTHING ELSE (C05_last_block_closed_independent): the lines are Document\'s (each ends with its only newline), A\'s LAST block is closed, no top-level block of A is a link-definition block (any start state) - then the blocks of A + blank line + B are the blocks of A followed by those of B read from the state A leaves; that every code / fence / HTML block and every LIST of A was ended by a line of A is DERIVED from the closed last block (a line of white space starts no block: a `needs a non-space character` analysis of the regex engine; a list whose reading ran off the end of A is followed by blank lines only: ListItem.read gives back at most one line, a blank one, the continuation pattern evaluated exactly on any mix of leading spaces and tabs); '
              '(2) tokenizing the same lines from another start line shifts every recorded line number, nested ones included, by exactly the difference, (3) a blank '
              'line is skipped by the loop. The law at the property\'s full strength (only the LAST block of A closed), whole pipeline with inline phase and line '
              'numbers, is kernel-checked on 781 x 13 pairs (bound in the theorem) and decided beyond that on the implementation by the oracle; model tied to the '
              'code by X-doc on the combined texts.',
-        note='Heading.start and CodeFence.start, with the class attributes they leave behind for read(), and the other start predicates of the model are proved equal to the methods translated from block_token.py on every run (C05_block_starts_are_the_source). PARTIAL in one respect: for top-level LISTS of A the theorem keeps a computable flag (the list is ended by a line of A) instead of deriving it from the closed last block (kernel sweep of the full statement + oracle cover it). Trusted: Coq kernel incl. vm_compute, extraction, translators, '
+        note='Heading.start and CodeFence.start, with the class attributes they leave behind for read(), and the other start predicates of the model are proved equal to the methods translated from block_token.py on every run (C05_block_starts_are_the_source). The theorem is about the block phase of the model (structure and line numbers of every block); with no link definitions the inline phase is a function of each block\'s own lines. Trusted: Coq kernel incl. vm_compute, extraction, translators, '
              'the hand-written parser model (correspondence-checked). Scratch-state leakage between readers (the property\'s concern) cannot exist in the pure model: that '
              'the implementation behaves like the model on adjacent blocks is exactly what X-doc and the law oracle check.',
         technique='Coq proof (induction over the dispatch loop; look-ahead lemmas for every reader) + bounded kernel sweep + extracted-model correspondence + law oracle',
